@@ -466,3 +466,25 @@ Definition check_c01_report (o c : list N) (m : list N) (ms : list morph) : bool
     list_eqb N.eqb (concat (map m_surf ms)) o &&
     (match ms with [] => false | _ => true end)
   end.
+
+(* ---- pipeline cases of C08 (first sentence of the property): for every reported morpheme the code-point offsets are
+   the numbers of code points of the original before its byte offsets, both ends are character boundaries of the
+   original, and slicing by code points = slicing by bytes = the surface.  Nothing about contiguity (that is C01). *)
+Definition morph_cp_ok (o : list N) (mo : morph) : bool :=
+  (N.to_nat (m_b mo) <=? N.to_nat (m_e mo)) &&
+  is_boundary o (N.to_nat (m_b mo)) && is_boundary o (N.to_nat (m_e mo)) && report_ok o mo.
+
+Definition check_c08_morphs (o c : list N) (m : list N) (ms : list morph) : bool :=
+  (match c with [] => true | _ => inv_b o c (map N.to_nat m) end) && forallb (morph_cp_ok o) ms.
+
+(* ---- on-demand splitting (Morpheme::split_into) of the morphemes of a mode-C analysis: (parent begin, parent end,
+   sub-morphemes as reported).  C01: the sub-morphemes tile the parent's range with lossless surfaces; C08: their
+   code-point offsets agree with their byte offsets *)
+Definition check_c01_subs (o : list N) (l : list (N * N * list morph)) : bool :=
+  forallb (fun x => let '(pb, pe, subs) := x in
+     chain_b (N.to_nat pb) (N.to_nat pe) (map (fun mo => (N.to_nat (m_b mo), N.to_nat (m_e mo))) subs) &&
+     forallb (morph_cp_ok o) subs &&
+     list_eqb N.eqb (concat (map m_surf subs)) (byte_slice o (N.to_nat pb, N.to_nat pe))) l.
+
+Definition check_c08_subs (o : list N) (l : list (N * N * list morph)) : bool :=
+  forallb (fun x => let '(_, _, subs) := x in forallb (morph_cp_ok o) subs) l.
